@@ -8,6 +8,7 @@ package types
 
 import (
 	"fmt"
+	"os"
 	"math/big"
 	"testing"
 	"time"
@@ -128,6 +129,91 @@ func (e *c01qEnv) run(c c01qCase) (key, what string, reached bool) {
 	return "", "", maj == 1 || maj == 2
 }
 
+// ---- phase 2: duplicates, equivocation and peer majority claims -------------------------------------------------------
+//
+// Operation sequences over: vote(v, X) for every validator v and X in {A, B, nil} — repeated deliveries and votes for a second
+// value by the same validator included — and claim(X), a peer's +2/3 claim for X (which makes the set keep conflicting votes
+// for X). Judged after every operation, one direction only (what safety needs): a value the set reports as having +2/3 really
+// has it among the DISTINCT validators whose vote for that value was delivered; nobody is listed for a value it never voted
+// for; "+2/3 of any" is backed by distinct voters.
+
+type c01qOp struct {
+	V    int `json:"v"` // validator (by key); -1: peer claim
+	What int `json:"x"` // 1 A, 2 B, 3 nil
+}
+
+type c01qSeqCase struct {
+	Powers []int64  `json:"powers"`
+	Ops    []c01qOp `json:"ops"`
+	Type   int      `json:"type"`
+}
+
+func (e *c01qEnv) runSeq(c c01qSeqCase) (key, what string, nontrivial bool) {
+	n := len(c.Powers)
+	vals := make([]*Validator, n)
+	for i := range vals {
+		vals[i] = NewValidator(e.keys[i].PubKey(), c.Powers[i])
+	}
+	vs := NewValidatorSet(vals)
+	var total int64
+	for _, p := range c.Powers {
+		total += p
+	}
+	typ := tmproto.SignedMsgType(c.Type)
+	set := NewVoteSet("verif-c01q", 3, 1, typ, vs)
+	voted := [4]map[int]bool{nil, {}, {}, {}} // value -> validators (by key) whose vote for it was delivered
+	anyVoted := map[int]bool{}
+	power := func(m map[int]bool) int64 {
+		var s int64
+		for k := range m {
+			s += c.Powers[k]
+		}
+		return s
+	}
+	idxOf := make([]int32, n)
+	for k := 0; k < n; k++ {
+		idxOf[k], _ = vs.GetByAddress(e.keys[k].PubKey().Address())
+	}
+	for step, op := range c.Ops {
+		if op.V < 0 {
+			_ = set.SetPeerMaj23("verif-peer", e.blocks[op.What-1])
+			nontrivial = true
+		} else {
+			_, _ = set.AddVote(e.vote(op.V, idxOf[op.V], typ, op.What)) // conflicting / duplicate deliveries may be refused: both fine
+			if voted[op.What][op.V] || (anyVoted[op.V] && !voted[op.What][op.V]) {
+				nontrivial = true
+			}
+			voted[op.What][op.V] = true
+			anyVoted[op.V] = true
+		}
+		if bid, ok := set.TwoThirdsMajority(); ok {
+			x := 3
+			for i := range e.blocks {
+				if bid.Equals(e.blocks[i]) {
+					x = i + 1
+				}
+			}
+			if 3*power(voted[x]) <= 2*total {
+				return "types/vote_set.go:addVerifiedVote:majority-reported-without-two-thirds-of-distinct-voters",
+					fmt.Sprintf("after step %d of %v: +2/3 reported for value %d, the distinct validators whose vote for it was delivered hold %d of %d", step, c.Ops, x, power(voted[x]), total), nontrivial
+			}
+		}
+		if set.HasTwoThirdsAny() && 3*power(anyVoted) <= 2*total {
+			return "types/vote_set.go:HasTwoThirdsAny:without-two-thirds-of-distinct-voters", fmt.Sprintf("after step %d of %v: distinct voters hold %d of %d", step, c.Ops, power(anyVoted), total), nontrivial
+		}
+		for x := 1; x <= 2; x++ {
+			if ba := set.BitArrayByBlockID(e.blocks[x-1]); ba != nil {
+				for k := 0; k < n; k++ {
+					if ba.GetIndex(int(idxOf[k])) && !voted[x][k] {
+						return "types/vote_set.go:BitArrayByBlockID:lists-a-validator-that-never-voted-for-the-block", fmt.Sprintf("after step %d of %v: validator key %d", step, c.Ops, k), nontrivial
+					}
+				}
+			}
+		}
+	}
+	return "", "", nontrivial
+}
+
 func c01qPerms(n int, f func([]int)) {
 	p := make([]int, n)
 	for i := range p {
@@ -149,17 +235,31 @@ func c01qPerms(n int, f func([]int)) {
 }
 
 func TestVerifC01Quorum(t *testing.T) {
-	r := vr.Start("C01", "quorum", 60*time.Second, 10*time.Minute)
+	// the same enumeration also serves C02 (a precommit is justified by the prevote majority the vote set reports): its check runs
+	// this test with VERIF_C01Q_AS=C02 as its part "voteset"
+	pid, part := "C01", "quorum"
+	if os.Getenv("VERIF_C01Q_AS") == "C02" {
+		pid, part = "C02", "voteset"
+	}
+	r := vr.Start(pid, part, 60*time.Second, 10*time.Minute)
 	defer r.Finish()
-	r.Rule = "real VoteSet: every power vector (n = 1..4 over {1,2,3}; n = 5 over {1,2}; vectors next to MaxTotalVotingPower) x every assignment none/A/B/nil per validator x every order of adding x prevote/precommit; " +
-		"after every add the reported +2/3 majority, HasTwoThirdsAny and (for precommits) the commit made from the set are compared with a big-integer tally; a case = (powers, votes, order, type), all distinct; non-trivial = a +2/3 majority for a block is reached"
+	r.Rule = "real VoteSet: (1) every power vector (n = 1..4 over {1,2,3}; n = 5 over {1,2}; vectors next to MaxTotalVotingPower) x every assignment none/A/B/nil per validator x every order of adding x prevote/precommit; " +
+		"after every add the reported +2/3 majority, HasTwoThirdsAny and (for precommits) the commit made from the set are compared with a big-integer tally; a case = (powers, votes, order, type), all distinct; non-trivial = a +2/3 majority for a block is reached; (2) every operation sequence up to a length bound of votes (repeats, second values) and peer +2/3 claims: a reported majority is backed by distinct voters"
 	r.Assume("ed25519 verification is memoised (a pure predicate): the same few dozen signed votes are verified in every case")
 	ed25519.SetVerifMemo(true)
 	var rc c01qCase
 	e := newC01qEnv()
-	if rep, skip := r.ReplayCase(&rc); skip {
+	var rs c01qSeqCase
+	if rep, skip := r.ReplayCase(&rs); skip {
+		return
+	} else if rep && len(rs.Ops) > 0 {
+		r.Eval()
+		if k, w, _ := e.runSeq(rs); k != "" {
+			r.Violation(k, w, rs)
+		}
 		return
 	} else if rep {
+		_, _ = r.ReplayCase(&rc)
 		r.Eval()
 		if k, w, _ := e.run(rc); k != "" {
 			r.Violation(k, w, rc)
@@ -238,5 +338,62 @@ func TestVerifC01Quorum(t *testing.T) {
 			r.Sample(c01qCase{Powers: pw})
 		}
 	}
-	r.Bound = "all listed power vectors x 4^n assignments x all orders x 2 vote types"
+	// phase 2: sequences with duplicates, equivocation and peer claims
+	maxLen := vr.Pick(5, 6)
+	for _, pw := range [][]int64{{1, 1, 1}, {1, 1, 1, 1}, {2, 1, 1}} {
+		n := len(pw)
+		var alpha []c01qOp
+		for v := 0; v < n; v++ {
+			if n == 4 && v >= 2 && !vr.Thorough() {
+				// validators 2 and 3 of the 4-set only vote for B (symmetry: they are interchangeable with 0 and 1 otherwise)
+				alpha = append(alpha, c01qOp{V: v, What: 2})
+				continue
+			}
+			for x := 1; x <= 3; x++ {
+				alpha = append(alpha, c01qOp{V: v, What: x})
+			}
+		}
+		alpha = append(alpha, c01qOp{V: -1, What: 1}, c01qOp{V: -1, What: 2})
+		seq := make([]c01qOp, 0, maxLen)
+		stop := false
+		var rec func()
+		rec = func() {
+			if stop {
+				return
+			}
+			if len(seq) == maxLen {
+				ci++
+				if !r.Mine(ci) {
+					return
+				}
+				if ci%4096 == 0 && r.Deadline("C01 quorum sequences") {
+					stop = true
+					return
+				}
+				for _, typ := range []int{1, 2} {
+					c := c01qSeqCase{Powers: pw, Ops: append([]c01qOp{}, seq...), Type: typ}
+					r.Eval()
+					key, what, nt := e.runSeq(c)
+					if nt {
+						r.NTCount(1)
+					}
+					if key != "" {
+						r.Outcome(key)
+						r.Violation(key, what, c)
+						stop = true
+						return
+					}
+				}
+				return
+			}
+			for _, op := range alpha {
+				seq = append(seq, op)
+				rec()
+				seq = seq[:len(seq)-1]
+			}
+		}
+		rec()
+		r.Outcome(fmt.Sprintf("sequences:n=%d:len=%d:sound", n, maxLen))
+	}
+	r.Bound = fmt.Sprintf("all listed power vectors x 4^n assignments x all orders x 2 vote types; all operation sequences of length %d (votes with repeats and equivocation, peer claims) over 3 and 4 validators", maxLen)
 }
